@@ -87,6 +87,12 @@ def gen_case(rng):
         op = c09.gen_op(rng, L, kind=str(rng.choice(["move", "rot", "set_position", "set_orientation", "reset"],
                                                      p=[0.3, 0.4, 0.12, 0.12, 0.06])))
         hist.append({"target": rng.random(), "leaf": bool(rng.random() < 0.25), "op": op})
+        if rng.random() < 0.12:
+            # a member takes over the position path of another member (`a.position = b.position`, the array the
+            # public property returns), then that other member is moved: the two must stay independent objects
+            hist.append({"target": rng.random(), "leaf": bool(rng.random() < 0.6), "op": {"op": "adopt_position", "other": rng.random()}})
+            hist.append({"target": 0.0, "leaf": False, "target_ref": "last_other",
+                         "op": c09.gen_op(rng, L, kind=str(rng.choice(["move", "rot"])))})
     return {"tree": tree, "L": L, "history": hist}
 
 
@@ -103,6 +109,7 @@ def field_of(root):
 def check_case(ctx, case):
     with quiet():
         root = objs.build(case["tree"])
+    last_other = None
     for step, h in enumerate(case["history"]):
         nodes = index_tree(root)
         colls = [(p, o) for p, o in nodes if hasattr(o, "_children")]
@@ -110,6 +117,22 @@ def check_case(ctx, case):
         pool = leaves if (h["leaf"] and leaves) else colls
         tpath, target = pool[int(h["target"] * len(pool)) % len(pool)]
         op = h["op"]
+        if h.get("target_ref") == "last_other":
+            if last_other is None:
+                continue
+            target = last_other
+        live = None
+        if op["op"] == "adopt_position":
+            others = [o for _, o in nodes if o is not target]
+            if not others:
+                continue
+            last_other = others[int(op["other"] * len(others)) % len(others)]
+            if len(last_other._position) != len(target._position):
+                last_other = None
+                continue
+            live = last_other.position
+            op = {"op": "set_position", "value": np.array(live, float).reshape(-1, 3).tolist()}
+            ctx.count("adopted_position_paths" + ("_len>1" if len(target._position) > 1 else "_len1"))
         is_coll = hasattr(target, "_children")
         sub = {id(o) for _, o in index_tree(target)}
         if len({len(o._position) for _, o in index_tree(target)}) != 1:
@@ -126,7 +149,10 @@ def check_case(ctx, case):
             decidable, b, e = False, 0, 0
         try:
             with quiet():
-                c09.apply_lib(target, op)
+                if live is not None:
+                    target.position = live
+                else:
+                    c09.apply_lib(target, op)
         except Exception as ex:
             ctx.violation({"kind": "valid-op-raised", "op": op["op"], "type": type(ex).__name__},
                           {**case, "history": case["history"][: step + 1]}, exc_info(ex))
